@@ -52,6 +52,10 @@ namespace EraVerif.Model.Scope
 @[simp] theorem causeCtx_tids (σ : State) (c : Nat) : (causeCtx σ c).tids = σ.tids := rfl
 @[simp] theorem causeCtx_now (σ : State) (c : Nat) : (causeCtx σ c).now = σ.now := rfl
 
+@[simp] theorem phase_beq (a b : Phase) : (a == b) = decide (a = b) := rfl
+@[simp] theorem out_beq (a b : Out) : (a == b) = decide (a = b) := rfl
+@[simp] theorem sphase_beq (a b : SPhase) : (a == b) = decide (a = b) := rfl
+
 /-! ## who owns which guard -/
 
 /-- task record `x` owns a `CancelGuard` of scope `s` (started as a main task, release not yet announced) -/
@@ -97,5 +101,1538 @@ theorem countP_congr_task (l : List Nat) (g g' : Nat → Task) (f : Task → Boo
   apply List.countP_congr
   intro t ht
   simp [h t ht]
+
+
+@[simp] theorem mainCount_setScope (σ : State) (s : Nat) (x : Scope) (s' : Nat) :
+    mainCount (setScope σ s x) s' = mainCount σ s' := rfl
+@[simp] theorem mainCount_setCtx (σ : State) (c : Nat) (x : Ctx) (s' : Nat) :
+    mainCount (setCtx σ c x) s' = mainCount σ s' := rfl
+@[simp] theorem mainCount_setInner (σ : State) (c : Nat) (x : Option Nat) (s' : Nat) :
+    mainCount (setInner σ c x) s' = mainCount σ s' := rfl
+@[simp] theorem mainCount_causeCtx (σ : State) (c : Nat) (s' : Nat) :
+    mainCount (causeCtx σ c) s' = mainCount σ s' := rfl
+@[simp] theorem termCount_setScope (σ : State) (s : Nat) (x : Scope) (s' : Nat) :
+    termCount (setScope σ s x) s' = termCount σ s' := rfl
+@[simp] theorem termCount_setCtx (σ : State) (c : Nat) (x : Ctx) (s' : Nat) :
+    termCount (setCtx σ c x) s' = termCount σ s' := rfl
+@[simp] theorem termCount_setInner (σ : State) (c : Nat) (x : Option Nat) (s' : Nat) :
+    termCount (setInner σ c x) s' = termCount σ s' := rfl
+@[simp] theorem termCount_causeCtx (σ : State) (c : Nat) (s' : Nat) :
+    termCount (causeCtx σ c) s' = termCount σ s' := rfl
+
+theorem mainCount_setTask (σ : State) (c : Nat) (x : Task) (s : Nat) (hn : σ.tids.Nodup) (hc : c ∈ σ.tids) :
+    mainCount (setTask σ c x) s + (holdsMain s (σ.task c)).toNat = mainCount σ s + (holdsMain s x).toNat := by
+  have := countP_update σ.task c x (holdsMain s) σ.tids hn
+  simp only [hc, true_and] at this
+  unfold mainCount
+  simp only [setTask_task, setTask_tids]
+  cases h1 : holdsMain s (σ.task c) <;> cases h2 : holdsMain s x <;> simp [h1, h2] at this ⊢ <;> omega
+
+theorem termCount_setTask (σ : State) (c : Nat) (x : Task) (s : Nat) (hn : σ.tids.Nodup) (hc : c ∈ σ.tids) :
+    termCount (setTask σ c x) s + (holdsTerm s (σ.task c)).toNat = termCount σ s + (holdsTerm s x).toNat := by
+  have := countP_update σ.task c x (holdsTerm s) σ.tids hn
+  simp only [hc, true_and] at this
+  unfold termCount
+  simp only [setTask_task, setTask_tids]
+  cases h1 : holdsTerm s (σ.task c) <;> cases h2 : holdsTerm s x <;> simp [h1, h2] at this ⊢ <;> omega
+
+@[simp] theorem addTask_task (σ : State) (t : Nat) (x : Task) (i : Nat) :
+    (addTask σ t x).task i = if i = t then x else σ.task i := rfl
+@[simp] theorem addTask_scope (σ : State) (t : Nat) (x : Task) : (addTask σ t x).scope = σ.scope := rfl
+@[simp] theorem addTask_ctx (σ : State) (t : Nat) (x : Task) : (addTask σ t x).ctx = σ.ctx := rfl
+@[simp] theorem addTask_inner (σ : State) (t : Nat) (x : Task) : (addTask σ t x).inner = σ.inner := rfl
+@[simp] theorem addTask_tids (σ : State) (t : Nat) (x : Task) : (addTask σ t x).tids = t :: σ.tids := rfl
+@[simp] theorem addTask_now (σ : State) (t : Nat) (x : Task) : (addTask σ t x).now = σ.now := rfl
+
+theorem mainCount_addTask (σ : State) (c : Nat) (x : Task) (s : Nat) (hc : c ∉ σ.tids) :
+    mainCount (addTask σ c x) s = (holdsMain s x).toNat + mainCount σ s := by
+  unfold mainCount
+  simp only [addTask_task, addTask_tids, List.countP_cons, if_true]
+  have : σ.tids.countP (fun t => holdsMain s (if t = c then x else σ.task t)) = σ.tids.countP (fun t => holdsMain s (σ.task t)) := by
+    apply List.countP_congr
+    intro t ht
+    have : t ≠ c := fun h => hc (h ▸ ht)
+    simp [this]
+  rw [this]
+  cases holdsMain s x <;> simp <;> omega
+
+theorem termCount_addTask (σ : State) (c : Nat) (x : Task) (s : Nat) (hc : c ∉ σ.tids) :
+    termCount (addTask σ c x) s = (holdsTerm s x).toNat + termCount σ s := by
+  unfold termCount
+  simp only [addTask_task, addTask_tids, List.countP_cons, if_true]
+  have : σ.tids.countP (fun t => holdsTerm s (if t = c then x else σ.task t)) = σ.tids.countP (fun t => holdsTerm s (σ.task t)) := by
+    apply List.countP_congr
+    intro t ht
+    have : t ≠ c := fun h => hc (h ▸ ht)
+    simp [this]
+  rw [this]
+  cases holdsTerm s x <;> simp <;> omega
+
+theorem mainCount_pos (σ : State) (s t : Nat) (ht : t ∈ σ.tids) (h : holdsMain s (σ.task t) = true) : 0 < mainCount σ s :=
+  List.countP_pos_iff.mpr ⟨t, ht, h⟩
+
+theorem termCount_pos (σ : State) (s t : Nat) (ht : t ∈ σ.tids) (h : holdsTerm s (σ.task t) = true) : 0 < termCount σ s :=
+  List.countP_pos_iff.mpr ⟨t, ht, h⟩
+
+/-! ## the structural / counting invariant -/
+
+structure InvA (σ : State) : Prop where
+  nodup : σ.tids.Nodup
+  mem_iff : ∀ t, t ∈ σ.tids ↔ (σ.task t).phase ≠ .absent
+  task_scope : ∀ t, (σ.task t).phase ≠ .absent → (σ.scope (σ.task t).scope).phase ≠ .absent
+  mainLow_eq : ∀ s, (σ.scope s).phase ≠ .absent → (σ.scope s).mainLow = (σ.scope s).rgHeld.toNat + mainCount σ s
+  termLow_eq : ∀ s, (σ.scope s).phase ≠ .absent → (σ.scope s).termLow = (!(σ.scope s).cgd).toNat + termCount σ s
+  closed : ∀ s, (σ.scope s).mainClosed = true → (σ.scope s).mainLow = 0
+  cgd_closed : ∀ s, (σ.scope s).cgd = true → (σ.scope s).mainClosed = true
+  tgd_term : ∀ s, (σ.scope s).tgd = true → (σ.scope s).termLow = 0 ∧ (σ.scope s).cgd = true
+  ret_tgd : ∀ s, (σ.scope s).phase = .returned → (σ.scope s).tgd = true
+
+theorem invA_init : InvA init := by
+  constructor <;> simp [init, mainCount, termCount]
+
+
+/-- a task that is spawned and has not announced its release keeps a counter of its scope positive -/
+theorem InvA.active_pos {σ : State} (h : InvA σ) (t : Nat)
+    (hp : (σ.task t).phase = .pending ∨ (σ.task t).phase = .running ∨ (σ.task t).phase = .ended) :
+    (((σ.task t).main = true ∧ (σ.task t).phase ≠ .pending) → 0 < (σ.scope (σ.task t).scope).mainLow) ∧
+    (¬((σ.task t).main = true ∧ (σ.task t).phase ≠ .pending) → 0 < (σ.scope (σ.task t).scope).termLow) := by
+  have hpres : (σ.task t).phase ≠ .absent := by rcases hp with h | h | h <;> simp [h]
+  have hmem := (h.mem_iff t).mpr hpres
+  have hsc := h.task_scope t hpres
+  constructor
+  · intro ⟨hm, hnp⟩
+    have : holdsMain (σ.task t).scope (σ.task t) = true := by
+      rcases hp with h | h | h <;> simp_all [holdsMain]
+    have := mainCount_pos σ _ t hmem this
+    have := h.mainLow_eq _ hsc
+    omega
+  · intro hn
+    have : holdsTerm (σ.task t).scope (σ.task t) = true := by
+      rcases hp with h | h | h <;> simp_all [holdsTerm]
+    have := termCount_pos σ _ t hmem this
+    have := h.termLow_eq _ hsc
+    omega
+
+theorem InvA.active_not_tgd {σ : State} (h : InvA σ) (t : Nat)
+    (hp : (σ.task t).phase = .pending ∨ (σ.task t).phase = .running ∨ (σ.task t).phase = .ended) :
+    (σ.scope (σ.task t).scope).tgd = false := by
+  have ⟨h1, h2⟩ := h.active_pos t hp
+  cases htg : (σ.scope (σ.task t).scope).tgd with
+  | false => rfl
+  | true =>
+    have ⟨ht0, hc⟩ := h.tgd_term _ htg
+    have hcl := h.closed _ (h.cgd_closed _ hc)
+    by_cases hm : (σ.task t).main = true ∧ (σ.task t).phase ≠ .pending
+    · have := h1 hm; omega
+    · have := h2 hm; omega
+
+theorem InvA.active_live {σ : State} (h : InvA σ) (t : Nat)
+    (hp : (σ.task t).phase = .pending ∨ (σ.task t).phase = .running ∨ (σ.task t).phase = .ended) :
+    (σ.scope (σ.task t).scope).phase = .live := by
+  have hpres : (σ.task t).phase ≠ .absent := by rcases hp with h | h | h <;> simp [h]
+  have hsc := h.task_scope t hpres
+  have hnt := h.active_not_tgd t hp
+  cases hph : (σ.scope (σ.task t).scope).phase with
+  | absent => exact absurd hph hsc
+  | live => rfl
+  | returned => have := h.ret_tgd _ hph; simp [hnt] at this
+
+
+/-- replacing the record of a present task by one that owns the same guards in the same scope -/
+theorem invA_setTask_same {σ : State} (h : InvA σ) (t : Nat) (x : Task)
+    (hpres : (σ.task t).phase ≠ .absent) (hx : x.phase ≠ .absent) (hsc : x.scope = (σ.task t).scope)
+    (hm : ∀ s, holdsMain s x = holdsMain s (σ.task t)) (ht : ∀ s, holdsTerm s x = holdsTerm s (σ.task t)) :
+    InvA (setTask σ t x) := by
+  have hmem := (h.mem_iff t).mpr hpres
+  refine ⟨h.nodup, ?_, ?_, ?_, ?_, h.closed, h.cgd_closed, h.tgd_term, h.ret_tgd⟩
+  · intro i
+    by_cases hi : i = t
+    · subst hi; simp [hmem, hx]
+    · simp [hi, h.mem_iff i]
+  · intro i
+    by_cases hi : i = t
+    · subst hi; simp [hsc]; intro _; exact h.task_scope i hpres
+    · simp [hi]; exact h.task_scope i
+  · intro s hs
+    have := mainCount_setTask σ t x s h.nodup hmem
+    rw [hm s] at this
+    have h2 := h.mainLow_eq s hs
+    simp only [setTask_scope] at hs ⊢
+    omega
+  · intro s hs
+    have := termCount_setTask σ t x s h.nodup hmem
+    rw [ht s] at this
+    have h2 := h.termLow_eq s hs
+    simp only [setTask_scope] at hs ⊢
+    omega
+
+/-- `InvA` only looks at the tasks, the scopes and the id list -/
+theorem invA_of_eq {σ σ' : State} (h : InvA σ) (ht : σ'.task = σ.task) (hs : σ'.scope = σ.scope)
+    (hi : σ'.tids = σ.tids) : InvA σ' := by
+  have hm : ∀ s, mainCount σ' s = mainCount σ s := by intro s; unfold mainCount; rw [ht, hi]
+  have hc : ∀ s, termCount σ' s = termCount σ s := by intro s; unfold termCount; rw [ht, hi]
+  refine ⟨hi ▸ h.nodup, ?_, ?_, ?_, ?_, ?_, ?_, ?_, ?_⟩
+  · intro t; rw [hi, ht]; exact h.mem_iff t
+  · intro t; rw [ht, hs]; exact h.task_scope t
+  · intro s; rw [hs, hm]; exact h.mainLow_eq s
+  · intro s; rw [hs, hc]; exact h.termLow_eq s
+  · intro s; rw [hs]; exact h.closed s
+  · intro s; rw [hs]; exact h.cgd_closed s
+  · intro s; rw [hs]; exact h.tgd_term s
+  · intro s; rw [hs]; exact h.ret_tgd s
+
+/-- replacing the record of an existing scope -/
+theorem invA_setScope {σ : State} (h : InvA σ) (s : Nat) (x : Scope)
+    (hph : x.phase ≠ .absent)
+    (hm : x.mainLow = x.rgHeld.toNat + mainCount σ s)
+    (ht : x.termLow = (!x.cgd).toNat + termCount σ s)
+    (hcl : x.mainClosed = true → x.mainLow = 0)
+    (hcc : x.cgd = true → x.mainClosed = true)
+    (htg : x.tgd = true → x.termLow = 0 ∧ x.cgd = true)
+    (hrt : x.phase = .returned → x.tgd = true) : InvA (setScope σ s x) := by
+  refine ⟨h.nodup, h.mem_iff, ?_, ?_, ?_, ?_, ?_, ?_, ?_⟩
+  · intro t hp
+    have := h.task_scope t hp
+    simp only [setScope_scope, setScope_task] at hp ⊢
+    split
+    · exact hph
+    · exact this
+  all_goals
+    intro s'
+    simp only [setScope_scope, mainCount_setScope, termCount_setScope]
+    by_cases hs : s' = s
+    · subst hs; simp only [if_true]
+      first | exact fun _ => hm | exact fun _ => ht | exact hcl | exact hcc | exact htg | exact hrt
+    · simp only [hs, if_false]
+      first
+        | exact h.mainLow_eq s' | exact h.termLow_eq s' | exact h.closed s' | exact h.cgd_closed s'
+        | exact h.tgd_term s' | exact h.ret_tgd s'
+
+theorem holdsMain_other {s s' : Nat} {x : Task} (h : x.scope = s) (hne : s' ≠ s) : holdsMain s' x = false := by
+  have : ¬ s = s' := fun hh => hne hh.symm
+  simp [holdsMain, h, this]
+
+theorem holdsTerm_other {s s' : Nat} {x : Task} (h : x.scope = s) (hne : s' ≠ s) : holdsTerm s' x = false := by
+  have : ¬ s = s' := fun hh => hne hh.symm
+  simp [holdsTerm, h, this]
+
+/-- replacing the record of a present task and the record of its scope together -/
+theorem invA_setBoth {σ : State} (h : InvA σ) (t : Nat) (x : Task) (s : Nat) (y : Scope)
+    (hpres : (σ.task t).phase ≠ .absent) (hx : x.phase ≠ .absent) (hs : (σ.task t).scope = s) (hxs : x.scope = s)
+    (hy : y.phase ≠ .absent)
+    (hm : y.mainLow + (holdsMain s (σ.task t)).toNat = y.rgHeld.toNat + mainCount σ s + (holdsMain s x).toNat)
+    (ht : y.termLow + (holdsTerm s (σ.task t)).toNat = (!y.cgd).toNat + termCount σ s + (holdsTerm s x).toNat)
+    (hcl : y.mainClosed = true → y.mainLow = 0)
+    (hcc : y.cgd = true → y.mainClosed = true)
+    (htg : y.tgd = true → y.termLow = 0 ∧ y.cgd = true)
+    (hrt : y.phase = .returned → y.tgd = true) : InvA (setTask (setScope σ s y) t x) := by
+  have hmem := (h.mem_iff t).mpr hpres
+  refine ⟨h.nodup, ?_, ?_, ?_, ?_, ?_, ?_, ?_, ?_⟩
+  · intro i
+    by_cases hi : i = t
+    · subst hi; simp [hmem, hx]
+    · simp [hi, h.mem_iff i]
+  · intro i
+    by_cases hi : i = t
+    · subst hi; simp [hxs, hy]
+    · simp only [setTask_task, hi, if_false, setTask_scope, setScope_task, setScope_scope]
+      intro hp
+      have := h.task_scope i hp
+      split
+      · exact hy
+      · exact this
+  · intro s'
+    have hc := mainCount_setTask (setScope σ s y) t x s' h.nodup hmem
+    simp only [setScope_task, mainCount_setScope] at hc
+    simp only [setTask_scope, setScope_scope]
+    by_cases hs' : s' = s
+    · subst hs'; simp only [if_true]; intro _; omega
+    · simp only [hs', if_false]
+      rw [holdsMain_other hs hs', holdsMain_other hxs hs'] at hc
+      intro hp; have := h.mainLow_eq s' hp; omega
+  · intro s'
+    have hc := termCount_setTask (setScope σ s y) t x s' h.nodup hmem
+    simp only [setScope_task, termCount_setScope] at hc
+    simp only [setTask_scope, setScope_scope]
+    by_cases hs' : s' = s
+    · subst hs'; simp only [if_true]; intro _; omega
+    · simp only [hs', if_false]
+      rw [holdsTerm_other hs hs', holdsTerm_other hxs hs'] at hc
+      intro hp; have := h.termLow_eq s' hp; omega
+  all_goals
+    intro s'
+    simp only [setTask_scope, setScope_scope]
+    by_cases hs' : s' = s
+    · subst hs'; simp only [if_true]
+      first | exact hcl | exact hcc | exact htg | exact hrt
+    · simp only [hs', if_false]
+      first | exact h.closed s' | exact h.cgd_closed s' | exact h.tgd_term s' | exact h.ret_tgd s'
+
+theorem InvA.not_mem_of_absent {σ : State} (h : InvA σ) {c : Nat} (hc : (σ.task c).phase = .absent) : c ∉ σ.tids := by
+  intro hm; exact (h.mem_iff c).mp hm hc
+
+theorem InvA.counts_absent {σ : State} (h : InvA σ) {s : Nat} (hs : (σ.scope s).phase = .absent) :
+    mainCount σ s = 0 ∧ termCount σ s = 0 := by
+  constructor
+  · apply List.countP_eq_zero.mpr
+    intro t ht hh
+    have hp := (h.mem_iff t).mp ht
+    have := h.task_scope t hp
+    simp [holdsMain] at hh
+    rw [hh.1.1] at this
+    exact this hs
+  · apply List.countP_eq_zero.mpr
+    intro t ht hh
+    have hp := (h.mem_iff t).mp ht
+    have := h.task_scope t hp
+    simp [holdsTerm] at hh
+    rw [hh.1] at this
+    exact this hs
+
+/-- a new task record together with the record of its scope -/
+theorem invA_addBoth {σ : State} (h : InvA σ) (c : Nat) (x : Task) (s : Nat) (y : Scope)
+    (habs : (σ.task c).phase = .absent) (hx : x.phase ≠ .absent) (hxs : x.scope = s) (hy : y.phase ≠ .absent)
+    (hm : y.mainLow = y.rgHeld.toNat + (holdsMain s x).toNat + mainCount σ s)
+    (ht : y.termLow = (!y.cgd).toNat + (holdsTerm s x).toNat + termCount σ s)
+    (hcl : y.mainClosed = true → y.mainLow = 0)
+    (hcc : y.cgd = true → y.mainClosed = true)
+    (htg : y.tgd = true → y.termLow = 0 ∧ y.cgd = true)
+    (hrt : y.phase = .returned → y.tgd = true) : InvA (addTask (setScope σ s y) c x) := by
+  have hnm := h.not_mem_of_absent habs
+  refine ⟨?_, ?_, ?_, ?_, ?_, ?_, ?_, ?_, ?_⟩
+  · simp only [addTask_tids, setScope_tids]; exact List.nodup_cons.mpr ⟨hnm, h.nodup⟩
+  · intro i
+    by_cases hi : i = c
+    · subst hi; simp [hx]
+    · simp [hi, h.mem_iff i]
+  · intro i
+    by_cases hi : i = c
+    · subst hi; simp [hxs, hy]
+    · simp only [addTask_task, hi, if_false, addTask_scope, setScope_task, setScope_scope]
+      intro hp
+      have := h.task_scope i hp
+      split
+      · exact hy
+      · exact this
+  · intro s'
+    have hc := mainCount_addTask (setScope σ s y) c x s' hnm
+    simp only [mainCount_setScope] at hc
+    simp only [addTask_scope, setScope_scope]
+    by_cases hs' : s' = s
+    · subst hs'; simp only [if_true]; intro _; omega
+    · simp only [hs', if_false]
+      rw [holdsMain_other hxs hs'] at hc
+      intro hp; have := h.mainLow_eq s' hp; simp at hc; omega
+  · intro s'
+    have hc := termCount_addTask (setScope σ s y) c x s' hnm
+    simp only [termCount_setScope] at hc
+    simp only [addTask_scope, setScope_scope]
+    by_cases hs' : s' = s
+    · subst hs'; simp only [if_true]; intro _; omega
+    · simp only [hs', if_false]
+      rw [holdsTerm_other hxs hs'] at hc
+      intro hp; have := h.termLow_eq s' hp; simp at hc; omega
+  all_goals
+    intro s'
+    simp only [addTask_scope, setScope_scope]
+    by_cases hs' : s' = s
+    · subst hs'; simp only [if_true]
+      first | exact hcl | exact hcc | exact htg | exact hrt
+    · simp only [hs', if_false]
+      first | exact h.closed s' | exact h.cgd_closed s' | exact h.tgd_term s' | exact h.ret_tgd s'
+
+theorem invA_step {σ : State} {e : Event} (h : InvA σ) (hg : enabled σ e = true) : InvA (apply σ e) := by
+  cases e with
+  | ctxnew c p d =>
+    exact ⟨h.nodup, h.mem_iff, h.task_scope, h.mainLow_eq, h.termLow_eq, h.closed, h.cgd_closed, h.tgd_term, h.ret_tgd⟩
+  | obs t c => exact h
+  | advance d =>
+    exact ⟨h.nodup, h.mem_iff, h.task_scope, h.mainLow_eq, h.termLow_eq, h.closed, h.cgd_closed, h.tgd_term, h.ret_tgd⟩
+  | endT t o v =>
+    simp [enabled] at hg
+    obtain ⟨hr, _⟩ := hg
+    apply invA_setTask_same h
+    · simp [hr]
+    · simp
+    · rfl
+    · intro s; simp [holdsMain, hr]
+    · intro s; simp [holdsTerm, hr]
+  | tgd s =>
+    simp [enabled] at hg
+    obtain ⟨⟨hl, hnt⟩, h0⟩ := hg
+    have hne : (σ.scope s).phase ≠ .absent := by simp [hl]
+    have hte := h.termLow_eq s hne
+    have hc : (σ.scope s).cgd = true := by
+      cases hcc : (σ.scope s).cgd with
+      | true => rfl
+      | false => simp [hcc] at hte; omega
+    apply invA_setScope h
+    · simpa using hne
+    · exact h.mainLow_eq s hne
+    · exact hte
+    · exact h.closed s
+    · exact h.cgd_closed s
+    · intro _; exact ⟨h0, hc⟩
+    · intro hr; simp [hl] at hr
+  | rgd s =>
+    simp [enabled] at hg
+    obtain ⟨⟨hl, hrg⟩, hpos⟩ := hg
+    have hne : (σ.scope s).phase ≠ .absent := by simp [hl]
+    have hme := h.mainLow_eq s hne
+    apply invA_setScope h
+    · simpa using hne
+    · simp [hrg] at hme ⊢; omega
+    · exact h.termLow_eq s hne
+    · intro hc; have := h.closed s hc; omega
+    · exact h.cgd_closed s
+    · exact h.tgd_term s
+    · intro hr; simp [hl] at hr
+  | cgd s cc =>
+    simp [enabled] at hg
+    obtain ⟨⟨⟨⟨hl, hnc⟩, hm0⟩, htpos⟩, _⟩ := hg
+    have hne : (σ.scope s).phase ≠ .absent := by simp [hl]
+    have hme := h.mainLow_eq s hne
+    have hte := h.termLow_eq s hne
+    apply invA_of_eq (σ := setScope σ s { σ.scope s with cgd := true, mainClosed := true, termLow := (σ.scope s).termLow - 1 })
+    · apply invA_setScope h
+      · simpa using hne
+      · exact hme
+      · simp [hnc] at hte ⊢; omega
+      · intro _; exact hm0
+      · intro _; rfl
+      · intro htg; have := h.tgd_term s htg; simp [hnc] at this
+      · intro hr; simp [hl] at hr
+    · rfl
+    · rfl
+    · rfl
+  | cancel s t cc =>
+    simp [enabled] at hg
+    have hlive := h.active_live t (Or.inr (Or.inl hg.1.1.1))
+    rw [hg.1.2] at hlive
+    have hne : (σ.scope s).phase ≠ .absent := by simp [hlive]
+    apply invA_of_eq (σ := setScope σ s { σ.scope s with explicit := true })
+    · apply invA_setScope h
+      · simpa using hne
+      · exact h.mainLow_eq s hne
+      · exact h.termLow_eq s hne
+      · exact h.closed s
+      · exact h.cgd_closed s
+      · exact h.tgd_term s
+      · exact h.ret_tgd s
+    · rfl
+    · rfl
+    · rfl
+  | ret s r =>
+    simp [enabled] at hg
+    obtain ⟨⟨hl, htg⟩, _⟩ := hg
+    have hne : (σ.scope s).phase ≠ .absent := by simp [hl]
+    apply invA_of_eq (σ := setScope σ s { σ.scope s with phase := .returned, result := some r })
+    · apply invA_setScope h
+      · simp
+      · exact h.mainLow_eq s hne
+      · exact h.termLow_eq s hne
+      · exact h.closed s
+      · exact h.cgd_closed s
+      · exact h.tgd_term s
+      · intro _; exact htg
+    · simp only [apply]; split <;> rfl
+    · simp only [apply]; split <;> rfl
+    · simp only [apply]; split <;> rfl
+  | seterr s t ip st cc =>
+    simp [enabled] at hg
+    obtain ⟨⟨⟨⟨⟨⟨hen, hsc⟩, _⟩, _⟩, _⟩, _⟩, _⟩ := hg
+    have hlive := h.active_live t (Or.inr (Or.inr hen))
+    rw [hsc] at hlive
+    have hne : (σ.scope s).phase ≠ .absent := by simp [hlive]
+    let y : Scope := { σ.scope s with
+      slot := if st then (if ip then Slot.panic else Slot.err t (σ.task t).val) else (σ.scope s).slot,
+      errLog := (σ.scope s).errLog ++ [(t, ip)] }
+    have h1 : InvA (setScope σ s y) := by
+      apply invA_setScope h
+      · simpa [y] using hne
+      · exact h.mainLow_eq s hne
+      · exact h.termLow_eq s hne
+      · exact h.closed s
+      · exact h.cgd_closed s
+      · exact h.tgd_term s
+      · exact h.ret_tgd s
+    have h2 : InvA (if st then causeCtx (setScope σ s y) (σ.scope s).ctx else setScope σ s y) := by
+      split
+      · exact invA_of_eq h1 rfl rfl rfl
+      · exact h1
+    have h3 := invA_setTask_same h2 t { σ.task t with reported := true }
+      (by split <;> simp [hen]) (by simp [hen]) (by split <;> rfl)
+      (by intro s'; split <;> simp [holdsMain]) (by intro s'; split <;> simp [holdsTerm])
+    exact h3
+  | rel t =>
+    simp [enabled] at hg
+    obtain ⟨⟨hen, _⟩, hpos⟩ := hg
+    have hlive := h.active_live t (Or.inr (Or.inr hen))
+    have hne : (σ.scope (σ.task t).scope).phase ≠ .absent := by simp [hlive]
+    have hme := h.mainLow_eq _ hne
+    have hte := h.termLow_eq _ hne
+    simp only [apply]
+    apply invA_setBoth h
+    · simp [hen]
+    · simp
+    · rfl
+    · rfl
+    · split <;> simpa using hne
+    · cases hm : (σ.task t).main <;> simp [hm, holdsMain, hen] at hpos ⊢ <;> omega
+    · cases hm : (σ.task t).main <;> simp [hm, holdsTerm, hen] at hpos ⊢ <;> omega
+    · cases hm : (σ.task t).main <;> simp [hm] at hpos ⊢
+      · exact h.closed _
+      · intro hc; have := h.closed _ hc; omega
+    · split <;> exact h.cgd_closed _
+    · cases hm : (σ.task t).main <;> simp [hm] at hpos ⊢
+      · intro htg; have := h.tgd_term _ htg; omega
+      · exact h.tgd_term _
+    · split <;> (intro hr; simp [hlive] at hr)
+  | start c m =>
+    simp [enabled] at hg
+    obtain ⟨⟨hpe, htpos⟩, hk⟩ := hg
+    have hlive := h.active_live c (Or.inl hpe)
+    have hne : (σ.scope (σ.task c).scope).phase ≠ .absent := by simp [hlive]
+    have hme := h.mainLow_eq _ hne
+    have hte := h.termLow_eq _ hne
+    have hntg := h.active_not_tgd c (Or.inl hpe)
+    simp only [apply]
+    apply invA_setBoth h
+    · simp [hpe]
+    · simp
+    · rfl
+    · rfl
+    · split
+      · simpa using hne
+      · split <;> simpa using hne
+    · cases m <;> simp [holdsMain, hpe] at hk ⊢
+      · split <;> simpa using hme
+      · omega
+    · cases m <;> simp [holdsTerm, hpe] at hk ⊢
+      · split <;> simpa using hte
+      · omega
+    · cases m <;> simp at hk ⊢
+      · split
+        · intro _; rcases hk with hk | hk
+          · simp_all
+          · exact hk.1
+        · exact h.closed _
+      · exact hk.2
+    · cases m <;> simp at hk ⊢
+      · split
+        · intro _; rfl
+        · exact h.cgd_closed _
+      · exact h.cgd_closed _
+    · cases m <;> simp [hntg] at hk ⊢
+      split <;> simp [hntg]
+    · cases m <;> simp at hk ⊢
+      · split <;> (intro hr; simp [hlive] at hr)
+      · intro hr; simp [hlive] at hr
+  | spawn p c r =>
+    simp [enabled] at hg
+    obtain ⟨⟨hrun, _⟩, habs⟩ := hg
+    have hlive := h.active_live p (Or.inr (Or.inl hrun))
+    have hne : (σ.scope (σ.task p).scope).phase ≠ .absent := by simp [hlive]
+    have hme := h.mainLow_eq _ hne
+    have hte := h.termLow_eq _ hne
+    have hntg := h.active_not_tgd p (Or.inr (Or.inl hrun))
+    simp only [apply]
+    apply invA_addBoth h
+    · exact habs
+    · simp
+    · rfl
+    · simpa using hne
+    · simp [holdsMain]; exact hme
+    · simp [holdsTerm]; omega
+    · intro hc; exact h.closed _ hc
+    · exact h.cgd_closed _
+    · intro htg; simp at htg; simp [hntg] at htg
+    · intro hr; simp [hlive] at hr
+  | make s c p o r =>
+    simp [enabled] at hg
+    obtain ⟨⟨⟨⟨⟨hsa, _⟩, _⟩, _⟩, hra⟩, _⟩ := hg
+    have ⟨hm0, ht0⟩ := h.counts_absent hsa
+    let y : Scope := { phase := .live, ctx := c, pctx := p, owner := o, root := r, rgHeld := true, mainLow := 1, termLow := 2 }
+    have key : InvA (addTask (setScope σ s y) r { scope := s, parent := none, reqMain := true, phase := .pending }) := by
+      apply invA_addBoth h
+      · exact hra
+      · simp
+      · rfl
+      · simp [y]
+      · simp [holdsMain, hm0, y]
+      · simp [holdsTerm, ht0, y]
+      · simp [y]
+      · simp [y]
+      · simp [y]
+      · simp [y]
+    apply invA_of_eq key
+    · simp only [apply]; cases o <;> rfl
+    · simp only [apply]; cases o <;> rfl
+    · simp only [apply]; cases o <;> rfl
+
+
+
+/-! ## the error slot -/
+
+/-- the slot as a function of the sequence of `set_err` calls: a panic anywhere wins, else the first error -/
+def slotOf (val : Nat → Nat) (log : List (Nat × Bool)) : Slot :=
+  if log.any (fun e => e.2) then .panic
+  else match log with
+    | [] => .empty
+    | (t, _) :: _ => .err t (val t)
+
+theorem slotOf_congr (val val' : Nat → Nat) (log : List (Nat × Bool)) (h : ∀ e ∈ log, val' e.1 = val e.1) :
+    slotOf val' log = slotOf val log := by
+  unfold slotOf
+  split
+  · rfl
+  · cases log with
+    | nil => rfl
+    | cons a l => simp [h a (by simp)]
+
+theorem slotOf_append (val : Nat → Nat) (log : List (Nat × Bool)) (t : Nat) (p : Bool) :
+    slotOf val (log ++ [(t, p)]) =
+      if shouldStore (slotOf val log) p then (if p then Slot.panic else Slot.err t (val t)) else slotOf val log := by
+  unfold slotOf
+  by_cases hany : log.any (fun e => e.2) = true
+  · simp [hany, shouldStore]
+  · cases log with
+    | nil => cases p <;> simp [shouldStore]
+    | cons a l =>
+      simp only [Bool.not_eq_true] at hany
+      cases p <;> simp [hany, shouldStore]
+      obtain ⟨a1, a2⟩ := a
+      simp at hany ⊢
+      simp [hany]
+
+theorem slotOf_eq_empty (val : Nat → Nat) (log : List (Nat × Bool)) : slotOf val log = .empty ↔ log = [] := by
+  unfold slotOf
+  constructor
+  · intro h
+    split at h
+    · cases h
+    · cases log with
+      | nil => rfl
+      | cons a l => simp at h
+  · intro h; subst h; simp
+
+structure InvB (σ : State) : Prop where
+  slot_eq : ∀ s, (σ.scope s).slot = slotOf (fun t => (σ.task t).val) (σ.scope s).errLog
+  log_sound : ∀ s t p, (t, p) ∈ (σ.scope s).errLog →
+    (σ.task t).scope = s ∧ (σ.task t).reported = true ∧ ((σ.task t).phase = .ended ∨ (σ.task t).phase = .released)
+      ∧ (σ.task t).out ≠ .ok ∧ outIsPanic (σ.task t).out = p
+  reported_in : ∀ t, (σ.task t).reported = true →
+    ((σ.task t).phase = .ended ∨ (σ.task t).phase = .released) ∧ ∃ p, (t, p) ∈ (σ.scope (σ.task t).scope).errLog
+  released_reported : ∀ t, (σ.task t).phase = .released → (σ.task t).out ≠ .ok → (σ.task t).reported = true
+  log_nodup : ∀ s, ((σ.scope s).errLog.map (fun e => e.1)).Nodup
+  absent_log : ∀ s, (σ.scope s).phase = .absent → (σ.scope s).errLog = [] ∧ (σ.scope s).slot = .empty
+
+theorem invB_init : InvB init := by
+  constructor <;> simp [init, slotOf]
+
+
+/-- scopes keep slot and log; task records change only in ways the error bookkeeping does not see -/
+theorem invB_compat {σ σ' : State} (h : InvB σ)
+    (hs : ∀ s, (σ'.scope s).slot = (σ.scope s).slot ∧ (σ'.scope s).errLog = (σ.scope s).errLog)
+    (hp : ∀ s, (σ'.scope s).phase = .absent → (σ.scope s).phase = .absent)
+    (ha : ∀ t, (σ'.task t).reported = (σ.task t).reported)
+    (hb : ∀ t, (σ.task t).reported = true → (σ'.task t).scope = (σ.task t).scope ∧ (σ'.task t).out = (σ.task t).out
+      ∧ (σ'.task t).val = (σ.task t).val ∧ ((σ'.task t).phase = .ended ∨ (σ'.task t).phase = .released))
+    (hc : ∀ t, (σ'.task t).phase = .released → (σ'.task t).out = .ok ∨ (σ'.task t).reported = true) : InvB σ' := by
+  refine ⟨?_, ?_, ?_, ?_, ?_, ?_⟩
+  · intro s
+    rw [(hs s).1, (hs s).2, h.slot_eq s]
+    apply (slotOf_congr _ _ _ _).symm
+    intro e he
+    have := h.log_sound s e.1 e.2 he
+    exact (hb e.1 this.2.1).2.2.1
+  · intro s t p hm
+    rw [(hs s).2] at hm
+    have := h.log_sound s t p hm
+    have hb' := hb t this.2.1
+    refine ⟨by rw [hb'.1]; exact this.1, by rw [ha t]; exact this.2.1, hb'.2.2.2, by rw [hb'.2.1]; exact this.2.2.2.1,
+      by rw [hb'.2.1]; exact this.2.2.2.2⟩
+  · intro t hr
+    rw [ha t] at hr
+    have hb' := hb t hr
+    have := h.reported_in t hr
+    refine ⟨hb'.2.2.2, ?_⟩
+    rw [hb'.1, (hs _).2]
+    exact this.2
+  · intro t hrel hout
+    rcases hc t hrel with h1 | h1
+    · exact absurd h1 hout
+    · exact h1
+  · intro s; rw [(hs s).2]; exact h.log_nodup s
+  · intro s hab
+    rw [(hs s).1, (hs s).2]
+    exact h.absent_log s (hp s hab)
+
+theorem InvB.not_reported {σ : State} (h : InvB σ) (t : Nat)
+    (hp : (σ.task t).phase ≠ .ended ∧ (σ.task t).phase ≠ .released) : (σ.task t).reported = false := by
+  cases hr : (σ.task t).reported with
+  | false => rfl
+  | true =>
+    have := (h.reported_in t hr).1
+    rcases this with h1 | h1
+    · exact absurd h1 hp.1
+    · exact absurd h1 hp.2
+
+theorem InvB.released_ok {σ : State} (h : InvB σ) (t : Nat) (hp : (σ.task t).phase = .released) :
+    (σ.task t).out = .ok ∨ (σ.task t).reported = true := by
+  by_cases ho : (σ.task t).out = .ok
+  · exact Or.inl ho
+  · exact Or.inr (h.released_reported t hp ho)
+
+
+theorem invB_step {σ : State} {e : Event} (hA : InvA σ) (h : InvB σ) (hg : enabled σ e = true) : InvB (apply σ e) := by
+  -- facts about unchanged tasks used by `invB_compat`
+  have hb0 : ∀ t, (σ.task t).reported = true → ((σ.task t).phase = .ended ∨ (σ.task t).phase = .released) :=
+    fun t hr => (h.reported_in t hr).1
+  cases e with
+  | ctxnew c p d => exact invB_compat h (fun s => ⟨rfl, rfl⟩) (fun s hh => hh) (fun t => rfl) (fun t hr => ⟨rfl, rfl, rfl, hb0 t hr⟩) (fun t hr => h.released_ok t hr)
+  | obs t c => exact h
+  | advance d => exact invB_compat h (fun s => ⟨rfl, rfl⟩) (fun s hh => hh) (fun t => rfl) (fun t hr => ⟨rfl, rfl, rfl, hb0 t hr⟩) (fun t hr => h.released_ok t hr)
+  | tgd s =>
+    simp [enabled] at hg
+    apply invB_compat h
+    · intro s'; simp only [apply, setScope_scope]; split <;> simp_all
+    · intro s'; simp only [apply, setScope_scope]; split <;> simp_all
+    · intro t; rfl
+    · intro t hr; exact ⟨rfl, rfl, rfl, hb0 t hr⟩
+    · intro t hr; exact h.released_ok t hr
+  | rgd s =>
+    simp [enabled] at hg
+    apply invB_compat h
+    · intro s'; simp only [apply, setScope_scope]; split <;> simp_all
+    · intro s'; simp only [apply, setScope_scope]; split <;> simp_all
+    · intro t; rfl
+    · intro t hr; exact ⟨rfl, rfl, rfl, hb0 t hr⟩
+    · intro t hr; exact h.released_ok t hr
+  | cgd s cc =>
+    simp [enabled] at hg
+    apply invB_compat h
+    · intro s'; simp only [apply, causeCtx_scope, setScope_scope]; split <;> simp_all
+    · intro s'; simp only [apply, causeCtx_scope, setScope_scope]; split <;> simp_all
+    · intro t; rfl
+    · intro t hr; exact ⟨rfl, rfl, rfl, hb0 t hr⟩
+    · intro t hr; exact h.released_ok t hr
+  | cancel s t cc =>
+    simp [enabled] at hg
+    have hlive := hA.active_live t (Or.inr (Or.inl hg.1.1.1))
+    rw [hg.1.2] at hlive
+    apply invB_compat h
+    · intro s'; simp only [apply, causeCtx_scope, setScope_scope]; split <;> simp_all
+    · intro s'; simp only [apply, causeCtx_scope, setScope_scope]; split <;> simp_all
+    · intro t; rfl
+    · intro t hr; exact ⟨rfl, rfl, rfl, hb0 t hr⟩
+    · intro t hr; exact h.released_ok t hr
+  | ret s r =>
+    simp [enabled] at hg
+    have e1 : (apply σ (.ret s r)).task = σ.task := by simp only [apply]; split <;> rfl
+    have e2 : (apply σ (.ret s r)).scope = (setScope σ s { σ.scope s with phase := .returned, result := some r }).scope := by
+      simp only [apply]; split <;> rfl
+    apply invB_compat h
+    · intro s'; rw [e2]; simp only [setScope_scope]; split <;> simp_all
+    · intro s'; rw [e2]; simp only [setScope_scope]; split <;> simp_all
+    · intro t; rw [e1]
+    · intro t hr; rw [e1]; exact ⟨rfl, rfl, rfl, hb0 t hr⟩
+    · intro t; rw [e1]; intro hr; exact h.released_ok t hr
+  | start c m =>
+    simp [enabled] at hg
+    have hnr := h.not_reported c (by simp [hg.1.1])
+    apply invB_compat h
+    · intro s'; simp only [apply, setTask_scope, setScope_scope]; split <;> (try split) <;> (try split) <;> simp_all
+    · intro s'; simp only [apply, setTask_scope, setScope_scope]; split <;> (try split) <;> (try split) <;> simp_all
+    · intro t; simp only [apply, setTask_task, setScope_task]; split <;> simp_all
+    · intro t hr; simp only [apply, setTask_task, setScope_task]
+      split
+      · simp_all
+      · exact ⟨rfl, rfl, rfl, hb0 t hr⟩
+    · intro t; simp only [apply, setTask_task, setScope_task]
+      split
+      · simp
+      · intro hr; exact h.released_ok t hr
+  | endT t o v =>
+    simp [enabled] at hg
+    have hnr := h.not_reported t (by simp [hg.1])
+    apply invB_compat h
+    · intro s'; exact ⟨rfl, rfl⟩
+    · intro s' hh; exact hh
+    · intro i; simp only [apply, setTask_task]; split <;> simp_all
+    · intro i hr; simp only [apply, setTask_task]
+      split
+      · simp_all
+      · exact ⟨rfl, rfl, rfl, hb0 i hr⟩
+    · intro i; simp only [apply, setTask_task]
+      split
+      · simp
+      · intro hr; exact h.released_ok i hr
+  | rel t =>
+    simp [enabled] at hg
+    apply invB_compat h
+    · intro s'; simp only [apply, setTask_scope, setScope_scope]; split <;> (try split) <;> simp_all
+    · intro s'; simp only [apply, setTask_scope, setScope_scope]; split <;> (try split) <;> simp_all
+    · intro i; simp only [apply, setTask_task, setScope_task]; split <;> simp_all
+    · intro i hr; simp only [apply, setTask_task, setScope_task]
+      split
+      · simp_all
+      · exact ⟨rfl, rfl, rfl, hb0 i hr⟩
+    · intro i; simp only [apply, setTask_task, setScope_task]
+      split
+      · intro _; subst_vars; exact hg.1.2
+      · intro hr; exact h.released_ok i hr
+  | spawn p c r =>
+    simp [enabled] at hg
+    have hnr := h.not_reported c (by simp [hg.2])
+    apply invB_compat h
+    · intro s'; simp only [apply, addTask_scope, setScope_scope]; split <;> simp_all
+    · intro s'; simp only [apply, addTask_scope, setScope_scope]; split <;> simp_all
+    · intro i; simp only [apply, addTask_task, setScope_task]; split <;> simp_all
+    · intro i hr; simp only [apply, addTask_task, setScope_task]
+      split
+      · simp_all
+      · exact ⟨rfl, rfl, rfl, hb0 i hr⟩
+    · intro i; simp only [apply, addTask_task, setScope_task]
+      split
+      · simp
+      · intro hr; exact h.released_ok i hr
+  | make s c p o r =>
+    simp [enabled] at hg
+    obtain ⟨⟨⟨⟨⟨hsa, _⟩, _⟩, _⟩, hra⟩, _⟩ := hg
+    have hnr := h.not_reported r (by simp [hra])
+    have hal := h.absent_log s hsa
+    have e1 : (apply σ (.make s c p o r)).task = fun i => if i = r then ({ scope := s, parent := none, reqMain := true, phase := .pending } : Task) else σ.task i := by
+      simp only [apply]; cases o <;> rfl
+    have e2 : (apply σ (.make s c p o r)).scope = fun i => if i = s then ({ phase := .live, ctx := c, pctx := p, owner := o, root := r, rgHeld := true, mainLow := 1, termLow := 2 } : Scope) else σ.scope i := by
+      simp only [apply]; cases o <;> rfl
+    apply invB_compat h
+    · intro s'; rw [e2]; simp only; split <;> simp_all
+    · intro s'; rw [e2]; simp only; split <;> simp_all
+    · intro i; rw [e1]; simp only; split <;> simp_all
+    · intro i hr; rw [e1]; simp only
+      split
+      · simp_all
+      · exact ⟨rfl, rfl, rfl, hb0 i hr⟩
+    · intro i; rw [e1]; simp only
+      split
+      · simp
+      · intro hr; exact h.released_ok i hr
+  | seterr s t ip st cc =>
+    simp [enabled] at hg
+    obtain ⟨⟨⟨⟨⟨⟨hen, hsc⟩, hnr⟩, hout⟩, hip⟩, hst⟩, _⟩ := hg
+    have hlive := hA.active_live t (Or.inr (Or.inr hen))
+    rw [hsc] at hlive
+    have hnotin : ∀ s' p, (t, p) ∉ (σ.scope s').errLog := by
+      intro s' p hm
+      have := (h.log_sound s' t p hm).2.1
+      simp [hnr] at this
+    have e1 : (apply σ (.seterr s t ip st cc)).task = fun i => if i = t then { σ.task t with reported := true } else σ.task i := by
+      simp only [apply]; split <;> rfl
+    have e2 : (apply σ (.seterr s t ip st cc)).scope = fun i => if i = s then
+        { σ.scope s with slot := if st then (if ip then Slot.panic else Slot.err t (σ.task t).val) else (σ.scope s).slot,
+                         errLog := (σ.scope s).errLog ++ [(t, ip)] } else σ.scope i := by
+      simp only [apply]; split <;> rfl
+    have hval : ∀ i, ((apply σ (.seterr s t ip st cc)).task i).val = (σ.task i).val := by
+      intro i; rw [e1]; simp only; split
+      · subst_vars; rfl
+      · rfl
+    refine ⟨?_, ?_, ?_, ?_, ?_, ?_⟩
+    · intro s'
+      have hv : (fun i => ((apply σ (.seterr s t ip st cc)).task i).val) = fun i => (σ.task i).val := funext hval
+      rw [hv, e2]
+      by_cases hs : s' = s
+      · subst hs
+        simp only [if_true]
+        rw [slotOf_append, ← h.slot_eq s', ← hst]
+      · simp only [hs, if_false]; exact h.slot_eq s'
+    · intro s' t' p hm
+      rw [e2] at hm
+      rw [e1]
+      by_cases hs : s' = s
+      · subst hs
+        simp only [if_true, List.mem_append, List.mem_singleton, Prod.mk.injEq] at hm
+        rcases hm with hm | ⟨rfl, rfl⟩
+        · have ht' : t' ≠ t := fun hh => hnotin s' p (hh ▸ hm)
+          simp only [ht', if_false]
+          exact h.log_sound s' t' p hm
+        · simp only [if_true]
+          exact ⟨hsc, by simp, Or.inl hen, hout, hip⟩
+      · simp only [hs, if_false] at hm
+        have ht' : t' ≠ t := fun hh => hnotin s' p (hh ▸ hm)
+        simp only [ht', if_false]
+        exact h.log_sound s' t' p hm
+    · intro i
+      rw [e1, e2]
+      by_cases hi : i = t
+      · subst hi
+        simp only [if_true]
+        intro _
+        refine ⟨Or.inl hen, ip, ?_⟩
+        simp [hsc]
+      · simp only [hi, if_false]
+        intro hr
+        have := h.reported_in i hr
+        refine ⟨this.1, ?_⟩
+        obtain ⟨p, hp⟩ := this.2
+        refine ⟨p, ?_⟩
+        split
+        · rename_i heq
+          simp only [List.mem_append]
+          left; rw [← heq]; exact hp
+        · exact hp
+    · intro i
+      rw [e1]
+      by_cases hi : i = t
+      · subst hi; simp [hen]
+      · simp only [hi, if_false]; exact h.released_reported i
+    · intro s'
+      rw [e2]
+      by_cases hs : s' = s
+      · subst hs
+        simp only [if_true, List.map_append, List.map_cons, List.map_nil]
+        apply List.nodup_append.mpr
+        refine ⟨h.log_nodup s', by simp, ?_⟩
+        intro a ha b hb
+        simp at hb
+        subst hb
+        intro hab
+        subst hab
+        simp only [List.mem_map] at ha
+        obtain ⟨⟨a1, a2⟩, hm, rfl⟩ := ha
+        exact hnotin s' a2 hm
+      · simp only [hs, if_false]; exact h.log_nodup s'
+    · intro s'
+      rw [e2]
+      by_cases hs : s' = s
+      · subst hs; simp [hlive]
+      · simp only [hs, if_false]; exact h.absent_log s'
+
+
+/-! ## contexts -/
+
+/-- one of the three local causes of cancellation of a scope's context has happened -/
+def Scope.flag (x : Scope) : Prop := x.slot ≠ .empty ∨ x.cgd = true ∨ x.explicit = true
+
+structure InvC (σ : State) : Prop where
+  scope_ctx : ∀ s, (σ.scope s).phase ≠ .absent →
+    (σ.ctx (σ.scope s).ctx).present = true ∧ (σ.ctx (σ.scope s).ctx).ofScope = some s ∧
+    (σ.ctx (σ.scope s).pctx).present = true ∧
+    (σ.ctx (σ.scope s).ctx).anc = (σ.scope s).ctx :: (σ.ctx (σ.scope s).pctx).anc
+  cause_origin : ∀ c, (σ.ctx c).cause = true →
+    ∃ s, (σ.scope s).phase ≠ .absent ∧ (σ.scope s).ctx = c ∧ (σ.scope s).flag
+  cause_of : ∀ s, (σ.scope s).phase ≠ .absent → (σ.scope s).flag → (σ.ctx (σ.scope s).ctx).cause = true
+  anc_self : ∀ c, (σ.ctx c).present = true → c ∈ (σ.ctx c).anc
+  anc_closed : ∀ c a, (σ.ctx c).present = true → a ∈ (σ.ctx c).anc →
+    (σ.ctx a).present = true ∧ ∀ b ∈ (σ.ctx a).anc, b ∈ (σ.ctx c).anc
+
+theorem invC_init : InvC init := by
+  refine ⟨?_, ?_, ?_, ?_, ?_⟩
+  · intro s h; simp [init] at h
+  · intro c h; simp [init] at h; split at h <;> simp at h
+  · intro s h; simp [init] at h
+  · intro c h; simp [init] at h ⊢; split at h <;> simp_all
+  · intro c a h ha
+    simp [init] at h ha ⊢
+    split at h
+    · subst_vars; simp at ha; subst ha; simp
+    · simp at h
+
+theorem invC_compat {σ σ' : State} (h : InvC σ) (hc : σ'.ctx = σ.ctx)
+    (hs : ∀ s, (σ'.scope s).ctx = (σ.scope s).ctx ∧ (σ'.scope s).pctx = (σ.scope s).pctx ∧
+      ((σ'.scope s).phase ≠ .absent ↔ (σ.scope s).phase ≠ .absent) ∧ ((σ'.scope s).flag ↔ (σ.scope s).flag)) :
+    InvC σ' := by
+  refine ⟨?_, ?_, ?_, ?_, ?_⟩
+  · intro s hp
+    rw [hc, (hs s).1, (hs s).2.1]
+    exact h.scope_ctx s ((hs s).2.2.1.mp hp)
+  · intro c hcause
+    rw [hc] at hcause
+    obtain ⟨s, h1, h2, h3⟩ := h.cause_origin c hcause
+    exact ⟨s, (hs s).2.2.1.mpr h1, by rw [(hs s).1]; exact h2, (hs s).2.2.2.mpr h3⟩
+  · intro s hp hf
+    rw [hc, (hs s).1]
+    exact h.cause_of s ((hs s).2.2.1.mp hp) ((hs s).2.2.2.mp hf)
+  · intro c; rw [hc]; exact h.anc_self c
+  · intro c a; rw [hc]; exact h.anc_closed c a
+
+/-- `Ctx::cancel` on the context of scope `s`, which at the same time records one of the three causes -/
+theorem invC_cause {σ σ' : State} (h : InvC σ) (s : Nat) (hs0 : (σ.scope s).phase ≠ .absent)
+    (hc : σ'.ctx = fun i => if i = (σ.scope s).ctx then { σ.ctx (σ.scope s).ctx with cause := true } else σ.ctx i)
+    (hs : ∀ s', (σ'.scope s').ctx = (σ.scope s').ctx ∧ (σ'.scope s').pctx = (σ.scope s').pctx ∧
+      ((σ'.scope s').phase ≠ .absent ↔ (σ.scope s').phase ≠ .absent) ∧ (s' ≠ s → ((σ'.scope s').flag ↔ (σ.scope s').flag)))
+    (hf : (σ'.scope s).flag) : InvC σ' := by
+  have hctx : ∀ i, (σ'.ctx i).present = (σ.ctx i).present ∧ (σ'.ctx i).anc = (σ.ctx i).anc ∧
+      (σ'.ctx i).ofScope = (σ.ctx i).ofScope ∧ ((σ.ctx i).cause = true → (σ'.ctx i).cause = true) := by
+    intro i; rw [hc]; simp only
+    split
+    · subst_vars; simp
+    · simp
+  refine ⟨?_, ?_, ?_, ?_, ?_⟩
+  · intro s' hp
+    have := h.scope_ctx s' ((hs s').2.2.1.mp hp)
+    rw [(hs s').1, (hs s').2.1, (hctx _).1, (hctx _).2.1, (hctx _).2.2.1, (hctx _).1, (hctx _).2.1]
+    exact this
+  · intro c hcause
+    rw [hc] at hcause
+    simp only at hcause
+    split at hcause
+    · rename_i heq
+      exact ⟨s, (hs s).2.2.1.mpr hs0, by rw [(hs s).1]; exact heq.symm, hf⟩
+    · obtain ⟨s', h1, h2, h3⟩ := h.cause_origin c hcause
+      by_cases hss : s' = s
+      · subst hss; exact ⟨s', (hs s').2.2.1.mpr h1, by rw [(hs s').1]; exact h2, hf⟩
+      · exact ⟨s', (hs s').2.2.1.mpr h1, by rw [(hs s').1]; exact h2, ((hs s').2.2.2 hss).mpr h3⟩
+  · intro s' hp hfl
+    rw [(hs s').1]
+    by_cases hss : s' = s
+    · subst hss; rw [hc]; simp
+    · apply (hctx _).2.2.2
+      exact h.cause_of s' ((hs s').2.2.1.mp hp) (((hs s').2.2.2 hss).mp hfl)
+  · intro c hp
+    rw [(hctx c).1] at hp; rw [(hctx c).2.1]; exact h.anc_self c hp
+  · intro c a hp ha
+    rw [(hctx c).1] at hp; rw [(hctx c).2.1] at ha
+    have := h.anc_closed c a hp ha
+    rw [(hctx a).1, (hctx a).2.1, (hctx c).2.1]
+    exact this
+
+
+/-- a fresh context `c` below `p`, possibly as the context of a fresh scope -/
+theorem invC_newctx {σ σ' : State} (h : InvC σ) (c p : Nat) (d : Option Nat) (os : Option Nat)
+    (hcabs : (σ.ctx c).present = false) (hpp : (σ.ctx p).present = true)
+    (hc : σ'.ctx = fun i => if i = c then { present := true, anc := c :: (σ.ctx p).anc, deadline := d, ofScope := os } else σ.ctx i)
+    (hs : ∀ s', σ'.scope s' = σ.scope s' ∨
+      ((σ.scope s').phase = .absent ∧ (σ'.scope s').ctx = c ∧ (σ'.scope s').pctx = p ∧ os = some s' ∧ ¬ (σ'.scope s').flag)) :
+    InvC σ' := by
+  have hcp : p ≠ c := by intro hh; subst hh; simp [hpp] at hcabs
+  have hold : ∀ i, (σ.ctx i).present = true → σ'.ctx i = σ.ctx i := by
+    intro i hi; rw [hc]; simp only
+    split
+    · subst_vars; simp [hi] at hcabs
+    · rfl
+  have hnew : σ'.ctx c = { present := true, anc := c :: (σ.ctx p).anc, deadline := d, ofScope := os } := by
+    rw [hc]; simp
+  refine ⟨?_, ?_, ?_, ?_, ?_⟩
+  · intro s' hp
+    rcases hs s' with he | ⟨_, h2, h3, h4, _⟩
+    · rw [he] at hp ⊢
+      have := h.scope_ctx s' hp
+      rw [hold _ this.1, hold _ this.2.2.1]
+      exact this
+    · rw [h2, h3, hnew, hold p hpp]
+      exact ⟨rfl, h4, hpp, rfl⟩
+  · intro c' hcause
+    by_cases hcc : c' = c
+    · subst hcc; rw [hnew] at hcause; simp at hcause
+    · rw [hc] at hcause; simp only [hcc, if_false] at hcause
+      obtain ⟨s', h1, h2, h3⟩ := h.cause_origin c' hcause
+      rcases hs s' with he | ⟨ha, _⟩
+      · exact ⟨s', by rw [he]; exact h1, by rw [he]; exact h2, by rw [he]; exact h3⟩
+      · exact absurd ha h1
+  · intro s' hp hf
+    rcases hs s' with he | ⟨_, _, _, _, hnf⟩
+    · rw [he] at hp hf ⊢
+      have hpr := (h.scope_ctx s' hp).1
+      rw [hold _ hpr]
+      exact h.cause_of s' hp hf
+    · exact absurd hf hnf
+  · intro c' hp
+    by_cases hcc : c' = c
+    · subst hcc; rw [hnew]; simp
+    · rw [hc] at hp ⊢; simp only [hcc, if_false] at hp ⊢; exact h.anc_self c' hp
+  · intro c' a hp ha
+    by_cases hcc : c' = c
+    · subst hcc
+      rw [hnew] at ha ⊢
+      simp only [List.mem_cons] at ha
+      rcases ha with rfl | ha
+      · rw [hnew]; exact ⟨rfl, fun b hb => hb⟩
+      · have := h.anc_closed p a hpp ha
+        rw [hold a this.1]
+        exact ⟨this.1, fun b hb => List.mem_cons_of_mem _ (this.2 b hb)⟩
+    · rw [hc] at hp ha; simp only [hcc, if_false] at hp ha
+      have := h.anc_closed c' a hp ha
+      rw [hold a this.1, hold c' hp]
+      exact this
+
+
+theorem invC_step {σ : State} {e : Event} (hA : InvA σ) (h : InvC σ) (hg : enabled σ e = true) : InvC (apply σ e) := by
+  cases e with
+  | obs t c => exact h
+  | advance d => exact invC_compat h rfl (fun s => ⟨rfl, rfl, Iff.rfl, Iff.rfl⟩)
+  | ctxnew c p d =>
+    simp [enabled] at hg
+    exact invC_newctx h c p d none hg.1 hg.2 rfl (fun s' => Or.inl rfl)
+  | make s c p o r =>
+    simp [enabled] at hg
+    obtain ⟨⟨⟨⟨⟨hsa, hca⟩, hpp⟩, _⟩, _⟩, _⟩ := hg
+    apply invC_newctx h c p none (some s) hca hpp
+    · simp only [apply]; cases o <;> rfl
+    · intro s'
+      have e2 : (apply σ (.make s c p o r)).scope = fun i => if i = s then ({ phase := .live, ctx := c, pctx := p, owner := o, root := r, rgHeld := true, mainLow := 1, termLow := 2 } : Scope) else σ.scope i := by
+        simp only [apply]; cases o <;> rfl
+      rw [e2]
+      by_cases hs : s' = s
+      · subst hs; right; simp [hsa, Scope.flag]
+      · left; simp [hs]
+  | spawn p c r =>
+    refine invC_compat (σ' := apply σ (.spawn p c r)) h rfl ?_
+    intro s'; simp only [apply, addTask_scope, setScope_scope]
+    split
+    · subst_vars; simp [Scope.flag]
+    · simp
+  | start c m =>
+    refine invC_compat (σ' := apply σ (.start c m)) h rfl ?_
+    intro s'; simp only [apply, setTask_scope, setScope_scope]
+    split
+    · subst_vars; split
+      · simp [Scope.flag]
+      · split <;> simp [Scope.flag]
+    · simp
+  | endT t o v => exact invC_compat h rfl (fun s => ⟨rfl, rfl, Iff.rfl, Iff.rfl⟩)
+  | rel t =>
+    refine invC_compat (σ' := apply σ (.rel t)) h rfl ?_
+    intro s'; simp only [apply, setTask_scope, setScope_scope]
+    split
+    · subst_vars; split <;> simp [Scope.flag]
+    · simp
+  | rgd s =>
+    refine invC_compat (σ' := apply σ (.rgd s)) h rfl ?_
+    intro s'; simp only [apply, setScope_scope]
+    split
+    · subst_vars; simp [Scope.flag]
+    · simp
+  | tgd s =>
+    refine invC_compat (σ' := apply σ (.tgd s)) h rfl ?_
+    intro s'; simp only [apply, setScope_scope]
+    split
+    · subst_vars; simp [Scope.flag]
+    · simp
+  | ret s r =>
+    simp [enabled] at hg
+    have e1 : (apply σ (.ret s r)).ctx = σ.ctx := by simp only [apply]; split <;> rfl
+    have e2 : (apply σ (.ret s r)).scope = (setScope σ s { σ.scope s with phase := .returned, result := some r }).scope := by
+      simp only [apply]; split <;> rfl
+    apply invC_compat h e1
+    intro s'; rw [e2]; simp only [setScope_scope]
+    split
+    · subst_vars; simp [Scope.flag, hg.1.1]
+    · simp
+  | cgd s cc =>
+    simp [enabled] at hg
+    have hne : (σ.scope s).phase ≠ .absent := by simp [hg.1.1.1.1]
+    apply invC_cause h s hne
+    · rfl
+    · intro s'; simp only [apply, causeCtx_scope, setScope_scope]
+      split
+      · subst_vars; simp
+      · simp
+    · simp [apply, Scope.flag]
+  | cancel s t cc =>
+    simp [enabled] at hg
+    have hlive := hA.active_live t (Or.inr (Or.inl hg.1.1.1))
+    rw [hg.1.2] at hlive
+    have hne : (σ.scope s).phase ≠ .absent := by simp [hlive]
+    apply invC_cause h s hne
+    · rfl
+    · intro s'; simp only [apply, causeCtx_scope, setScope_scope]
+      split
+      · subst_vars; simp
+      · simp
+    · simp [apply, Scope.flag]
+  | seterr s t ip st cc =>
+    simp [enabled] at hg
+    obtain ⟨⟨⟨⟨⟨⟨hen, hsc⟩, hnr⟩, hout⟩, hip⟩, hst⟩, _⟩ := hg
+    have hlive := hA.active_live t (Or.inr (Or.inr hen))
+    rw [hsc] at hlive
+    have hne : (σ.scope s).phase ≠ .absent := by simp [hlive]
+    cases st with
+    | false =>
+      apply invC_compat h
+      · simp [apply]
+      · intro s'; simp only [apply, Bool.false_eq_true, if_false, setTask_scope, setScope_scope]
+        split
+        · subst_vars; simp [Scope.flag]
+        · simp
+    | true =>
+      apply invC_cause h s hne
+      · simp [apply]; rfl
+      · intro s'; simp only [apply, if_true, setTask_scope, causeCtx_scope, setScope_scope]
+        split
+        · subst_vars; simp
+        · simp
+      · simp only [apply, if_true, setTask_scope, causeCtx_scope, setScope_scope, Scope.flag]
+        left; split <;> simp
+
+
+/-! ## owners of nested scopes, roots -/
+
+structure InvD (σ : State) : Prop where
+  owner_inner : ∀ s o, (σ.scope s).phase = .live → (σ.scope s).owner = some o →
+    (σ.task o).phase = .running ∧ σ.inner o = some s
+  inner_owner : ∀ t s, σ.inner t = some s → (σ.scope s).phase = .live ∧ (σ.scope s).owner = some t
+  owner_present : ∀ s o, (σ.scope s).phase ≠ .absent → (σ.scope s).owner = some o → (σ.task o).phase ≠ .absent
+  root_scope : ∀ s, (σ.scope s).phase ≠ .absent →
+    (σ.task (σ.scope s).root).scope = s ∧ (σ.task (σ.scope s).root).phase ≠ .absent
+
+theorem invD_init : InvD init := by
+  constructor <;> simp [init]
+
+theorem InvD.inner_running {σ : State} (h : InvD σ) {t s : Nat} (hi : σ.inner t = some s) : (σ.task t).phase = .running := by
+  have := h.inner_owner t s hi
+  exact (h.owner_inner s t this.1 this.2).1
+
+theorem invD_compat {σ σ' : State} (h : InvD σ) (hi : σ'.inner = σ.inner)
+    (hs : ∀ s, (σ'.scope s).phase = (σ.scope s).phase ∧ (σ'.scope s).owner = (σ.scope s).owner ∧ (σ'.scope s).root = (σ.scope s).root)
+    (ht : ∀ t, ((σ.task t).phase ≠ .absent → (σ'.task t).phase ≠ .absent ∧ (σ'.task t).scope = (σ.task t).scope) ∧
+      ((σ.task t).phase = .running → σ.inner t ≠ none → (σ'.task t).phase = .running)) : InvD σ' := by
+  refine ⟨?_, ?_, ?_, ?_⟩
+  · intro s o hl ho
+    rw [(hs s).1] at hl; rw [(hs s).2.1] at ho
+    have := h.owner_inner s o hl ho
+    rw [hi]
+    exact ⟨(ht o).2 this.1 (by simp [this.2]), this.2⟩
+  · intro t s hin
+    rw [hi] at hin
+    rw [(hs s).1, (hs s).2.1]
+    exact h.inner_owner t s hin
+  · intro s o hp ho
+    rw [(hs s).1] at hp; rw [(hs s).2.1] at ho
+    exact ((ht o).1 (h.owner_present s o hp ho)).1
+  · intro s hp
+    rw [(hs s).1] at hp
+    rw [(hs s).2.2]
+    have := h.root_scope s hp
+    have h2 := (ht (σ.scope s).root).1 this.2
+    exact ⟨by rw [h2.2]; exact this.1, h2.1⟩
+
+
+theorem invD_step {σ : State} {e : Event} (h : InvD σ) (hg : enabled σ e = true) : InvD (apply σ e) := by
+  have triv : ∀ t, ((σ.task t).phase ≠ .absent → (σ.task t).phase ≠ .absent ∧ (σ.task t).scope = (σ.task t).scope) ∧
+      ((σ.task t).phase = .running → σ.inner t ≠ none → (σ.task t).phase = .running) :=
+    fun t => ⟨fun hp => ⟨hp, rfl⟩, fun hr _ => hr⟩
+  cases e with
+  | obs t c => exact h
+  | advance d => exact invD_compat h rfl (fun s => ⟨rfl, rfl, rfl⟩) triv
+  | ctxnew c p d => exact invD_compat h rfl (fun s => ⟨rfl, rfl, rfl⟩) triv
+  | tgd s =>
+    refine invD_compat (σ' := apply σ (.tgd s)) h rfl ?_ triv
+    intro s'; simp only [apply, setScope_scope]; split
+    · subst_vars; simp
+    · simp
+  | rgd s =>
+    refine invD_compat (σ' := apply σ (.rgd s)) h rfl ?_ triv
+    intro s'; simp only [apply, setScope_scope]; split
+    · subst_vars; simp
+    · simp
+  | cgd s cc =>
+    refine invD_compat (σ' := apply σ (.cgd s cc)) h rfl ?_ triv
+    intro s'; simp only [apply, causeCtx_scope, setScope_scope]; split
+    · subst_vars; simp
+    · simp
+  | cancel s t cc =>
+    refine invD_compat (σ' := apply σ (.cancel s t cc)) h rfl ?_ triv
+    intro s'; simp only [apply, causeCtx_scope, setScope_scope]; split
+    · subst_vars; simp
+    · simp
+  | endT t o v =>
+    simp [enabled] at hg
+    refine invD_compat (σ' := apply σ (.endT t o v)) h rfl (fun s => ⟨rfl, rfl, rfl⟩) ?_
+    intro i; simp only [apply, setTask_task]
+    split
+    · subst_vars; simp [hg.2]
+    · exact triv i
+  | start c m =>
+    simp [enabled] at hg
+    refine invD_compat (σ' := apply σ (.start c m)) h rfl ?_ ?_
+    · intro s'; simp only [apply, setTask_scope, setScope_scope]; split
+      · subst_vars; split
+        · simp
+        · split <;> simp
+      · simp
+    · intro i; simp only [apply, setTask_task, setScope_task]
+      split
+      · subst_vars; simp
+      · exact triv i
+  | rel t =>
+    simp [enabled] at hg
+    refine invD_compat (σ' := apply σ (.rel t)) h rfl ?_ ?_
+    · intro s'; simp only [apply, setTask_scope, setScope_scope]; split
+      · subst_vars; split <;> simp
+      · simp
+    · intro i; simp only [apply, setTask_task, setScope_task]
+      split
+      · subst_vars; simp [hg.1.1]
+      · exact triv i
+  | spawn p c r =>
+    simp [enabled] at hg
+    refine invD_compat (σ' := apply σ (.spawn p c r)) h rfl ?_ ?_
+    · intro s'; simp only [apply, addTask_scope, setScope_scope]; split
+      · subst_vars; simp
+      · simp
+    · intro i; simp only [apply, addTask_task, setScope_task]
+      split
+      · subst_vars; simp [hg.2]
+      · exact triv i
+  | seterr s t ip st cc =>
+    simp [enabled] at hg
+    have e1 : (apply σ (.seterr s t ip st cc)).task = fun i => if i = t then { σ.task t with reported := true } else σ.task i := by
+      simp only [apply]; split <;> rfl
+    have e2 : (apply σ (.seterr s t ip st cc)).scope = fun i => if i = s then
+        { σ.scope s with slot := if st then (if ip then Slot.panic else Slot.err t (σ.task t).val) else (σ.scope s).slot,
+                         errLog := (σ.scope s).errLog ++ [(t, ip)] } else σ.scope i := by
+      simp only [apply]; split <;> rfl
+    have e3 : (apply σ (.seterr s t ip st cc)).inner = σ.inner := by
+      simp only [apply]; split <;> rfl
+    refine invD_compat h e3 ?_ ?_
+    · intro s'; rw [e2]; simp only; split
+      · subst_vars; simp
+      · simp
+    · intro i; rw [e1]; simp only
+      split
+      · subst_vars; simp; intro hh _; exact hh
+      · exact triv i
+  | make s c p o r =>
+    simp [enabled] at hg
+    obtain ⟨⟨⟨⟨⟨hsa, _⟩, _⟩, _⟩, hra⟩, hown⟩ := hg
+    have e1 : (apply σ (.make s c p o r)).task = fun i => if i = r then ({ scope := s, parent := none, reqMain := true, phase := .pending } : Task) else σ.task i := by
+      simp only [apply]; cases o <;> rfl
+    have e2 : (apply σ (.make s c p o r)).scope = fun i => if i = s then ({ phase := .live, ctx := c, pctx := p, owner := o, root := r, rgHeld := true, mainLow := 1, termLow := 2 } : Scope) else σ.scope i := by
+      simp only [apply]; cases o <;> rfl
+    have e3 : (apply σ (.make s c p o r)).inner = fun i => if some i = o then some s else σ.inner i := by
+      simp only [apply]; cases o with
+      | none => funext i; simp
+      | some o' => funext i; simp [setInner, addTask, setTask]
+    -- a present task is not the fresh root id
+    have hner : ∀ i, (σ.task i).phase ≠ .absent → i ≠ r := fun i hi hh => hi (hh ▸ hra)
+    have hown' : ∀ o', o = some o' → (σ.task o').phase = .running ∧ σ.inner o' = none ∧ o' ≠ r := by
+      intro o' ho; subst ho; simp at hown
+      exact ⟨hown.1.1, by simpa using hown.1.2, hown.2⟩
+    refine ⟨?_, ?_, ?_, ?_⟩
+    · intro s' o' hl ho
+      rw [e2] at hl ho; rw [e1, e3]
+      by_cases hs : s' = s
+      · subst hs
+        simp only [if_true] at ho
+        have := hown' o' ho
+        simp [this.2.2, this.1, ho]
+      · simp only [hs, if_false] at hl ho
+        have := h.owner_inner s' o' hl ho
+        have hne := hner o' (by simp [this.1])
+        simp only [hne, if_false]
+        refine ⟨this.1, ?_⟩
+        split
+        · rename_i heq
+          have := (hown' o' heq.symm).2.1
+          simp_all
+        · exact this.2
+    · intro t s'' hin
+      rw [e3] at hin; rw [e2]
+      simp only at hin
+      split at hin
+      · rename_i heq
+        simp at hin; subst hin
+        simp [heq]
+      · have := h.inner_owner t s'' hin
+        have hne : s'' ≠ s := by intro hh; subst hh; simp [hsa] at this
+        simp only [hne, if_false]; exact this
+    · intro s' o' hp ho
+      rw [e2] at hp ho; rw [e1]
+      by_cases hs : s' = s
+      · subst hs
+        simp only [if_true] at ho
+        have := hown' o' ho
+        simp [this.2.2, this.1]
+      · simp only [hs, if_false] at hp ho
+        have := h.owner_present s' o' hp ho
+        simp only [hner o' this, if_false]; exact this
+    · intro s' hp
+      rw [e2] at hp ⊢; rw [e1]
+      by_cases hs : s' = s
+      · subst hs; simp
+      · simp only [hs, if_false] at hp ⊢
+        have := h.root_scope s' hp
+        simp only [hner _ this.2, if_false]; exact this
+  | ret s r =>
+    simp [enabled] at hg
+    obtain ⟨⟨hl, _⟩, _⟩ := hg
+    have e1 : (apply σ (.ret s r)).task = σ.task := by simp only [apply]; split <;> rfl
+    have e2 : (apply σ (.ret s r)).scope = fun i => if i = s then { σ.scope s with phase := .returned, result := some r } else σ.scope i := by
+      simp only [apply]; split <;> rfl
+    have e3 : (apply σ (.ret s r)).inner = fun i => if some i = (σ.scope s).owner then none else σ.inner i := by
+      simp only [apply]
+      split
+      · rename_i heq; funext i; simp [heq]
+      · rename_i o heq; funext i; simp [heq, setInner]
+    refine ⟨?_, ?_, ?_, ?_⟩
+    · intro s' o' hl' ho
+      rw [e2] at hl' ho; rw [e1, e3]
+      by_cases hs : s' = s
+      · subst hs; simp at hl'
+      · simp only [hs, if_false] at hl' ho
+        have := h.owner_inner s' o' hl' ho
+        refine ⟨this.1, ?_⟩
+        simp only
+        split
+        · rename_i heq
+          have h2 := h.owner_inner s o' hl heq.symm
+          rw [this.2] at h2; simp at h2; exact absurd h2.2 hs
+        · exact this.2
+    · intro t s'' hin
+      rw [e3] at hin; rw [e2]
+      simp only at hin
+      split at hin
+      · simp at hin
+      · rename_i hne
+        have := h.inner_owner t s'' hin
+        have hss : s'' ≠ s := by intro hh; subst hh; exact hne this.2.symm
+        simp only [hss, if_false]; exact this
+    · intro s' o' hp ho
+      rw [e2] at hp ho; rw [e1]
+      by_cases hs : s' = s
+      · subst hs; simp only [if_true] at ho
+        exact h.owner_present s' o' (by simp [hl]) ho
+      · simp only [hs, if_false] at hp ho; exact h.owner_present s' o' hp ho
+    · intro s' hp
+      rw [e2] at hp ⊢; rw [e1]
+      by_cases hs : s' = s
+      · subst hs; simp only [if_true]
+        exact h.root_scope s' (by simp [hl])
+      · simp only [hs, if_false] at hp ⊢; exact h.root_scope s' hp
+
+
+/-! ## all invariants, reachable states -/
+
+structure Inv (σ : State) : Prop where
+  a : InvA σ
+  b : InvB σ
+  c : InvC σ
+  d : InvD σ
+
+theorem inv_init : Inv init := ⟨invA_init, invB_init, invC_init, invD_init⟩
+
+theorem inv_step {σ : State} {e : Event} (h : Inv σ) (hg : enabled σ e = true) : Inv (apply σ e) :=
+  ⟨invA_step h.a hg, invB_step h.a h.b hg, invC_step h.a h.c hg, invD_step h.d hg⟩
+
+theorem step?_eq_some {σ σ' : State} {e : Event} : step? σ e = some σ' ↔ enabled σ e = true ∧ σ' = apply σ e := by
+  unfold step?
+  split
+  · rename_i h; simp [h]; exact eq_comm
+  · rename_i h; simp [h]
+
+theorem run_cons {σ : State} {e : Event} {es : List Event} :
+    run σ (e :: es) = if enabled σ e then run (apply σ e) es else none := by
+  simp only [run, step?]
+  split <;> simp_all
+
+theorem run_append {σ : State} {es₁ es₂ : List Event} :
+    run σ (es₁ ++ es₂) = (run σ es₁).bind fun σ' => run σ' es₂ := by
+  induction es₁ generalizing σ with
+  | nil => simp [run]
+  | cons e es ih =>
+    simp only [List.cons_append, run_cons]
+    split
+    · exact ih
+    · simp
+
+/-- the states reached by replaying an accepted log from the initial state -/
+def Reach (σ : State) : Prop := ∃ es, run init es = some σ
+
+theorem run_inv {P : State → Prop} (hstep : ∀ σ e, P σ → enabled σ e = true → P (apply σ e))
+    {σ σ' : State} {es : List Event} (h0 : P σ) (hr : run σ es = some σ') : P σ' := by
+  induction es generalizing σ with
+  | nil => simp [run] at hr; exact hr ▸ h0
+  | cons e es ih =>
+    rw [run_cons] at hr
+    split at hr
+    · rename_i hg; exact ih (hstep σ e h0 hg) hr
+    · simp at hr
+
+theorem Reach.inv {σ : State} (h : Reach σ) : Inv σ := by
+  obtain ⟨es, hr⟩ := h
+  exact run_inv (P := Inv) (fun _ _ hi hg => inv_step hi hg) inv_init hr
+
+theorem Reach.init : Reach init := ⟨[], rfl⟩
+
+theorem Reach.step {σ : State} {e : Event} (h : Reach σ) (hg : enabled σ e = true) : Reach (apply σ e) := by
+  obtain ⟨es, hr⟩ := h
+  refine ⟨es ++ [e], ?_⟩
+  rw [run_append, hr]
+  show run σ [e] = some (apply σ e)
+  rw [run_cons]
+  simp [hg, run]
+
+theorem Reach.run {σ σ' : State} {es : List Event} (h : Reach σ) (hr : run σ es = some σ') : Reach σ' := by
+  obtain ⟨es0, hr0⟩ := h
+  refine ⟨es0 ++ es, ?_⟩
+  rw [run_append, hr0]
+  exact hr
+
+
+/-! ## consequences used by the property theorems -/
+
+/-- `mainLow = 0` exactly when the run guard is dropped and no started main task still owns its guard -/
+theorem InvA.mainLow_zero_iff {σ : State} (h : InvA σ) {s : Nat} (hs : (σ.scope s).phase ≠ .absent) :
+    (σ.scope s).mainLow = 0 ↔
+      (σ.scope s).rgHeld = false ∧ ∀ t ∈ σ.tids, holdsMain s (σ.task t) = false := by
+  have := h.mainLow_eq s hs
+  constructor
+  · intro h0
+    have hc : mainCount σ s = 0 := by omega
+    have hr : (σ.scope s).rgHeld = false := by
+      cases hrg : (σ.scope s).rgHeld with
+      | false => rfl
+      | true => simp [hrg] at this; omega
+    refine ⟨hr, ?_⟩
+    intro t ht
+    have := List.countP_eq_zero.mp hc t ht
+    simpa using this
+  · intro ⟨hr, hall⟩
+    have hc : mainCount σ s = 0 := List.countP_eq_zero.mpr (fun t ht => by simp [hall t ht])
+    simp [hr] at this; omega
+
+theorem InvA.termLow_zero_iff {σ : State} (h : InvA σ) {s : Nat} (hs : (σ.scope s).phase ≠ .absent) :
+    (σ.scope s).termLow = 0 ↔
+      (σ.scope s).cgd = true ∧ ∀ t ∈ σ.tids, holdsTerm s (σ.task t) = false := by
+  have := h.termLow_eq s hs
+  constructor
+  · intro h0
+    have hc : termCount σ s = 0 := by omega
+    have hr : (σ.scope s).cgd = true := by
+      cases hrg : (σ.scope s).cgd with
+      | true => rfl
+      | false => simp [hrg] at this; omega
+    refine ⟨hr, ?_⟩
+    intro t ht
+    have := List.countP_eq_zero.mp hc t ht
+    simpa using this
+  · intro ⟨hr, hall⟩
+    have hc : termCount σ s = 0 := List.countP_eq_zero.mpr (fun t ht => by simp [hall t ht])
+    simp [hr] at this; omega
+
+/-- a present task that owns no guard of its scope has released -/
+theorem released_of_not_holding {x : Task} {s : Nat} (hsc : x.scope = s) (hp : x.phase ≠ .absent)
+    (hm : holdsMain s x = false) (ht : holdsTerm s x = false) : x.phase = .released := by
+  cases hph : x.phase with
+  | absent => exact absurd hph hp
+  | released => rfl
+  | pending => simp [holdsTerm, hsc, hph] at ht
+  | running => cases hmn : x.main <;> simp [holdsMain, holdsTerm, hsc, hph, hmn] at hm ht
+  | ended => cases hmn : x.main <;> simp [holdsMain, holdsTerm, hsc, hph, hmn] at hm ht
+
+/-- once the `terminated` signal is sent every task of the scope has released its guard -/
+theorem InvA.all_released_of_tgd {σ : State} (h : InvA σ) {s : Nat} (hs : (σ.scope s).phase ≠ .absent)
+    (htg : (σ.scope s).tgd = true) :
+    (σ.scope s).rgHeld = false ∧ (σ.scope s).cgd = true ∧
+      ∀ t, (σ.task t).phase ≠ .absent → (σ.task t).scope = s → (σ.task t).phase = .released := by
+  have ⟨ht0, hc⟩ := h.tgd_term s htg
+  have hm0 := h.closed s (h.cgd_closed s hc)
+  have ⟨hrg, hmain⟩ := (h.mainLow_zero_iff hs).mp hm0
+  have ⟨_, hterm⟩ := (h.termLow_zero_iff hs).mp ht0
+  refine ⟨hrg, hc, ?_⟩
+  intro t hp hsc
+  have hmem := (h.mem_iff t).mpr hp
+  exact released_of_not_holding hsc hp (hmain t hmem) (hterm t hmem)
 
 end EraVerif.Model.Scope
